@@ -114,16 +114,18 @@ func builtinMathMax(call FunctionCall) Value {
 	case 1:
 		return float64Value(call.ArgumentList[0].float64())
 	}
+	// Every argument is converted, also after a NaN has been seen (15.8.2).
 	result := call.ArgumentList[0].float64()
-	if math.IsNaN(result) {
-		return NaNValue()
-	}
+	nan := math.IsNaN(result)
 	for _, value := range call.ArgumentList[1:] {
 		value := value.float64()
 		if math.IsNaN(value) {
-			return NaNValue()
+			nan = true
 		}
 		result = math.Max(result, value)
+	}
+	if nan {
+		return NaNValue()
 	}
 	return float64Value(result)
 }
@@ -135,16 +137,18 @@ func builtinMathMin(call FunctionCall) Value {
 	case 1:
 		return float64Value(call.ArgumentList[0].float64())
 	}
+	// Every argument is converted, also after a NaN has been seen (15.8.2).
 	result := call.ArgumentList[0].float64()
-	if math.IsNaN(result) {
-		return NaNValue()
-	}
+	nan := math.IsNaN(result)
 	for _, value := range call.ArgumentList[1:] {
 		value := value.float64()
 		if math.IsNaN(value) {
-			return NaNValue()
+			nan = true
 		}
 		result = math.Min(result, value)
+	}
+	if nan {
+		return NaNValue()
 	}
 	return float64Value(result)
 }
